@@ -386,6 +386,7 @@ CHECKS["C09"] = {
     "nontrivial_floor": 500,
     "units": [
         {"name": "wiring-setters", "run": "^TestC09Wiring$", "kind": "plain"},
+        {"name": "sense-disconnect", "run": "^TestC09SenseDisconnect$", "kind": "plain", "race": True},
         {"name": "context", "run": "^TestC09Context$", "kind": "rapid", "checks": {"quick": 4000, "thorough": 160000}, "shards": {"quick": 8, "thorough": 16}},
         {"name": "pooled-objects", "run": "^TestC09Pooled$", "kind": "rapid", "checks": {"quick": 4000, "thorough": 160000}, "shards": {"quick": 4, "thorough": 16}},
         {"name": "concurrent", "run": "^TestC09Concurrent$", "kind": "rapid", "checks": {"quick": 40, "thorough": 400}, "shards": {"quick": 2, "thorough": 4}},
